@@ -342,6 +342,15 @@ func (group *Group) delRtspPubSession(session *rtsp.PubSession) {
 func (group *Group) delPullSession(session base.IObject) {
 	Log.Debugf("[%s] [%s] del PullSession from group.", group.UniqueKey, session.UniqueKey())
 
+	// 注意，pull session可能从来没有成为group的输入流（比如连接失败，或者回源成功之前已经有其他输入流了），
+	// 这种情况只结束本次回源，不能清理group当前的输入流
+	if group.pullSessionUniqueKey() != session.UniqueKey() {
+		Log.Warnf("[%s] del pull session but not match. del session=%s, group session=%s",
+			group.UniqueKey, session.UniqueKey(), group.pullSessionUniqueKey())
+		group.pullProxy.isSessionPulling = false
+		return
+	}
+
 	group.resetRelayPullSession()
 	group.delIn()
 }
